@@ -16,8 +16,8 @@ Print Assumptions C20_never_is_uint64_max.
    well-formed intrusive lists, sorted scheduled lists, exact aggregates of valid listed nodes, and every node
    whose time is not valid is on its parent's needs-recalc list (hence on a needs-recalc path to its root). *)
 Theorem C20_reach_inv :
-  forall (gt : nat -> nat -> N -> N -> N * list cop) (pl : nat -> nat -> N -> N -> list cop),
-    (forall x k now prev, snd (gt x k now prev) = []) ->
+  forall (gt : nmap -> nat -> nat -> N -> N -> N * list cop) (pl : nmap -> nat -> nat -> N -> N -> list cop),
+    (forall m x k now prev, snd (gt m x k now prev) = []) ->
     forall f os s, run gt pl f init_state os = Some s -> Good nobody (nd s).
 Proof. exact reach_inv. Qed.
 Print Assumptions C20_reach_inv.
@@ -32,8 +32,8 @@ Print Assumptions C20_cop_preserves.
 (* recalc_min: the wake-up time the root reports is the minimum of the times requested by all attached nodes, and
    after the sweep every attached node has been asked (valid) and nothing awaits recalculation *)
 Theorem C20_recalc_min :
-  forall (gt : nat -> nat -> N -> N -> N * list cop),
-    (forall x k now prev, snd (gt x k now prev) = []) ->
+  forall (gt : nmap -> nat -> nat -> N -> N -> N * list cop),
+    (forall m x k now prev, snd (gt m x k now prev) = []) ->
     forall f s r now s',
       Good nobody (nd s) -> is_root (nd s) r = true -> top_get gt f s r now = Some s' ->
       exists mn, hd_error (evs s') = Some (EMin r mn) /\ mn = agg (nd s' r) /\
@@ -48,8 +48,8 @@ Print Assumptions C20_recalc_min.
    GetPulseTime() on exactly the attached nodes whose time is not valid (fired, invalidated, newly attached), once each,
    with (now, previous value), and on nobody else *)
 Theorem C20_recalc_asks :
-  forall (gt : nat -> nat -> N -> N -> N * list cop),
-    (forall x k now prev, snd (gt x k now prev) = []) ->
+  forall (gt : nmap -> nat -> nat -> N -> N -> N * list cop),
+    (forall m x k now prev, snd (gt m x k now prev) = []) ->
     forall f s r now s',
       Good nobody (nd s) -> is_root (nd s) r = true -> top_get gt f s r now = Some s' ->
       exists mn d, evs s' = EMin r mn :: d ++ evs s /\ NoDup (map ev_node d) /\
@@ -71,8 +71,8 @@ Print Assumptions C20_invalid_on_recalc_path.
    minimum of the requested times, Pulse() on exactly the attached nodes with requested time <= now, once each, with
    (now, requested time), each invalid and queued for being asked again afterwards *)
 Theorem C20_cycle_exact :
-  forall (gt : nat -> nat -> N -> N -> N * list cop) (pl : nat -> nat -> N -> N -> list cop),
-    (forall x k now prev, snd (gt x k now prev) = []) -> (forall x k now st, pl x k now st = []) ->
+  forall (gt : nmap -> nat -> nat -> N -> N -> N * list cop) (pl : nmap -> nat -> nat -> N -> N -> list cop),
+    (forall m x k now prev, snd (gt m x k now prev) = []) -> (forall m x k now st, pl m x k now st = []) ->
     forall f s r now s',
       (now < NEVER)%N -> Good nobody (nd s) -> is_root (nd s) r = true ->
       step gt pl f s (TCycle r now) = Some s' ->
@@ -94,8 +94,8 @@ Print Assumptions C20_cycle_exact.
    time now calls Pulse() on exactly the attached nodes whose requested time is <= now, once each, with
    (now, requested time); each is invalid afterwards and on its parent's needs-recalc list *)
 Theorem C20_pulse_exact :
-  forall (pl : nat -> nat -> N -> N -> list cop),
-    (forall x k now st, pl x k now st = []) ->
+  forall (pl : nmap -> nat -> nat -> N -> N -> list cop),
+    (forall m x k now st, pl m x k now st = []) ->
     forall f s r now s',
       (now < NEVER)%N ->
       Good nobody (nd s) -> is_root (nd s) r = true -> settled (nd s) r ->
@@ -114,8 +114,8 @@ Print Assumptions C20_pulse_exact.
    nodes with requested time <= now that are the root or have a finite aggregate fire; C20_never_request_not_fired spells
    out the boundary: at now = MUSCLE_TIME_NEVER a node that asked for "never" with nothing finite below it does not fire *)
 Theorem C20_pulse_exact_gen :
-  forall (pl : nat -> nat -> N -> N -> list cop),
-    (forall x k now st, pl x k now st = []) ->
+  forall (pl : nmap -> nat -> nat -> N -> N -> list cop),
+    (forall m x k now st, pl m x k now st = []) ->
     forall f s r now s',
       Good nobody (nd s) -> is_root (nd s) r = true -> settled (nd s) r ->
       agg (nd s r) = N.min (sched (nd s r)) (first_sched_agg (nd s) r) ->
@@ -130,8 +130,8 @@ Proof. exact pulse_exact_gen. Qed.
 Print Assumptions C20_pulse_exact_gen.
 
 Theorem C20_never_request_not_fired :
-  forall (pl : nat -> nat -> N -> N -> list cop),
-    (forall x k now st, pl x k now st = []) ->
+  forall (pl : nmap -> nat -> nat -> N -> N -> list cop),
+    (forall m x k now st, pl m x k now st = []) ->
     forall f s r s' y,
       Good nobody (nd s) -> is_root (nd s) r = true -> settled (nd s) r ->
       agg (nd s r) = N.min (sched (nd s r)) (first_sched_agg (nd s) r) ->
@@ -147,7 +147,7 @@ Print Assumptions C20_never_request_not_fired.
    invalid afterwards, and the invariants [Good] hold again -- so by C20_recalc_min the next recalculation reports a
    time <= the request of every node that is still attached, in particular of a due node the sweep did not reach *)
 Theorem C20_pulse_never_early_once :
-  forall (pl : nat -> nat -> N -> N -> list cop) f s r now s',
+  forall (pl : nmap -> nat -> nat -> N -> N -> list cop) f s r now s',
     Good nobody (nd s) -> top_pulse pl f s r now = Some s' ->
     Good nobody (nd s') /\ ev_rel now s s'.
 Proof. exact pulse_never_early_once. Qed.
@@ -162,13 +162,13 @@ Print Assumptions C20_pulse_never_early_once.
    times, and the reported time is not later than it (it can be earlier: a harmless early wake-up).
    With C20_reentrant_recalc_refuted / C20_f16_history_refused the excluded callbacks are exactly those of finding F16. *)
 Theorem C20_reach_inv_safe :
-  forall (gt : nat -> nat -> N -> N -> N * list cop) (pl : nat -> nat -> N -> N -> list cop) f os s,
+  forall (gt : nmap -> nat -> nat -> N -> N -> N * list cop) (pl : nmap -> nat -> nat -> N -> N -> list cop) f os s,
     run_s gt pl f init_state os = Some s -> run gt pl f init_state os = Some s /\ Good nobody (nd s).
 Proof. exact reach_inv_safe. Qed.
 Print Assumptions C20_reach_inv_safe.
 
 Theorem C20_recalc_min_safe :
-  forall (gt : nat -> nat -> N -> N -> N * list cop) f s r now s',
+  forall (gt : nmap -> nat -> nat -> N -> N -> N * list cop) f s r now s',
     Good nobody (nd s) -> is_root (nd s) r = true -> top_get_s gt f s r now = Some s' ->
     top_get gt f s r now = Some s' /\
     exists mn, hd_error (evs s') = Some (EMin r mn) /\ (mn <= agg (nd s' r))%N /\
@@ -183,8 +183,8 @@ Print Assumptions C20_recalc_min_safe.
    operations): after the recalculation every attached node is valid and Pulse() runs on exactly the then-attached nodes
    whose requested time is <= now *)
 Theorem C20_cycle_exact_safe :
-  forall (gt : nat -> nat -> N -> N -> N * list cop) (pl : nat -> nat -> N -> N -> list cop),
-    (forall x k now st, pl x k now st = []) ->
+  forall (gt : nmap -> nat -> nat -> N -> N -> N * list cop) (pl : nmap -> nat -> nat -> N -> N -> list cop),
+    (forall m x k now st, pl m x k now st = []) ->
     forall f s r now s',
       (now < NEVER)%N -> Good nobody (nd s) -> is_root (nd s) r = true ->
       step_s gt pl f s (TCycle r now) = Some s' ->
@@ -224,8 +224,8 @@ Print Assumptions C20_reentrant_recalc_refuted.
    depth of the forest; N bounds the ids of the nodes in use) no operation of the manager returns OutOfFuel (None),
    for callbacks that perform no operations; C20_cop_total: the same for every user operation, in any Good state *)
 Theorem C20_step_total :
-  forall (gt : nat -> nat -> N -> N -> N * list cop) (pl : nat -> nat -> N -> N -> list cop),
-    (forall x k now prev, snd (gt x k now prev) = []) -> (forall x k now st, pl x k now st = []) ->
+  forall (gt : nmap -> nat -> nat -> N -> N -> N * list cop) (pl : nmap -> nat -> nat -> N -> N -> list cop),
+    (forall m x k now prev, snd (gt m x k now prev) = []) -> (forall m x k now st, pl m x k now st = []) ->
     forall f s o, Good nobody (nd s) -> fits f (nd s) -> exists s', step gt pl f s o = Some s'.
 Proof. exact step_total. Qed.
 Print Assumptions C20_step_total.
@@ -233,8 +233,8 @@ Print Assumptions C20_step_total.
 (* ... and the general form: ANY Pulse() callbacks (restructuring the forest from inside the sweep), fuel >= 3N+4 where
    N bounds the ids of the nodes in use *)
 Theorem C20_step_total_any :
-  forall (gt : nat -> nat -> N -> N -> N * list cop) (pl : nat -> nat -> N -> N -> list cop),
-    (forall x k now prev, snd (gt x k now prev) = []) ->
+  forall (gt : nmap -> nat -> nat -> N -> N -> N * list cop) (pl : nmap -> nat -> nat -> N -> N -> list cop),
+    (forall m x k now prev, snd (gt m x k now prev) = []) ->
     forall f s o N,
       Good nobody (nd s) -> (forall y, alive (nd s y) = true -> y < N) -> 3 * N + 4 <= f ->
       exists s', step gt pl f s o = Some s'.
@@ -244,8 +244,8 @@ Print Assumptions C20_step_total_any.
 (* run_total: every history that creates only nodes with ids below N runs to completion with fuel >= 3N+4 (so the
    theorems above, stated for runs that return a state, cover every such history) *)
 Theorem C20_run_total :
-  forall (gt : nat -> nat -> N -> N -> N * list cop) (pl : nat -> nat -> N -> N -> list cop),
-    (forall x k now prev, snd (gt x k now prev) = []) ->
+  forall (gt : nmap -> nat -> nat -> N -> N -> N * list cop) (pl : nmap -> nat -> nat -> N -> N -> list cop),
+    (forall m x k now prev, snd (gt m x k now prev) = []) ->
     forall f N os, 3 * N + 4 <= f -> Forall (creates_below N) os -> exists s', run gt pl f init_state os = Some s'.
 Proof. exact run_total_init. Qed.
 Print Assumptions C20_run_total.
@@ -258,9 +258,9 @@ Proof. exact apply_cop_fuel. Qed.
 Print Assumptions C20_cop_total.
 
 (* non-vacuity: a concrete history reaches a state with a three-level tree, and its recalculation reports 5 *)
-Definition ex_gt : nat -> nat -> N -> N -> N * list cop :=
-  fun x _ _ _ => (match x with 2 => 5%N | 1 => 9%N | _ => NEVER end, []).
-Definition ex_pl : nat -> nat -> N -> N -> list cop := fun _ _ _ _ => [].
+Definition ex_gt : nmap -> nat -> nat -> N -> N -> N * list cop :=
+  fun _ x _ _ _ => (match x with 2 => 5%N | 1 => 9%N | _ => NEVER end, []).
+Definition ex_pl : nmap -> nat -> nat -> N -> N -> list cop := fun _ _ _ _ _ => [].
 Definition ex_ops : list (top) :=
   [TNew 0; TNew 1; TNew 2; TOp (CAttach 0 1); TOp (CAttach 1 2); TGet 0 1%N].
 
@@ -273,7 +273,7 @@ Proof. vm_compute. eexists. repeat split. Qed.
 (* non-vacuity of C20_pulse_exact's premises: the state reached above is settled with an exact root aggregate,
    and the sweep at time 7 fires node 2 (time 5) and not node 1 (time 9) *)
 Example C20_pulse_exact_nonvacuous :
-  (forall x k now st, ex_pl x k now st = []) /\ (7 < NEVER)%N /\
+  (forall m x k now st, ex_pl m x k now st = []) /\ (7 < NEVER)%N /\
   exists s, run ex_gt ex_pl 50 init_state ex_ops = Some s /\
     Good nobody (nd s) /\ is_root (nd s) 0 = true /\ settled (nd s) 0 /\
     agg (nd s 0) = N.min (sched (nd s 0)) (first_sched_agg (nd s) 0) /\
@@ -288,7 +288,7 @@ Proof.
     split; [vm_compute; reflexivity|]. split; [vm_compute; reflexivity|].
     eexists. split; [vm_compute; reflexivity|]. vm_compute. reflexivity. }
   destruct E as (s & Hrun & Hroot & Hv & Hlr & Hagg & Hp).
-  exists s. split; [exact Hrun|]. split; [exact (reach_inv ex_gt ex_pl (fun _ _ _ _ => eq_refl) 50 ex_ops s Hrun)|].
+  exists s. split; [exact Hrun|]. split; [exact (reach_inv ex_gt ex_pl (fun _ _ _ _ _ => eq_refl) 50 ex_ops s Hrun)|].
   split; [exact Hroot|]. split; [split; assumption|]. split; assumption.
 Qed.
 
